@@ -39,6 +39,15 @@ Send(ch, x) == Nd("Send", <<>>, <<ch, x>>)
 Defer(x) == Nd("Defer", <<>>, <<x>>)
 Go(x) == Nd("Go", <<>>, <<x>>)
 Show(es) == Nd("Show", <<>>, <<List(es)>>)
+\* Literal-carrying constructs (case space of MC_ExprLit).  In a *shape* tree the string datum is a hole name
+\* ("#1"); ExprLit.Resolve puts the byte strings in: the path an extends/import/render literal denotes, the
+\* source spelling of a string BasicLiteral (that is what the parser stores in Value).
+Rend(x) == Nd("Render", <<x>>, <<>>)                                      \* render "path"
+Ext(x) == Nd("Extends", <<x>>, <<>>)                                      \* extends "path"
+Imp(id, x, for) == Nd("Import", <<x>>, <<id, List(for)>>)                 \* import [id] "path" [for A, B]
+StrLit(x) == Nd("BasicLiteral", <<"string", x>>, <<>>)
+LitHoles == {"#1", "#2"}
+ImportNames == {"a", ".", "_"}
 
 Idents == {"a", "b", "c", "f", "T"}
 Prec5 == {"*", "/", "%", "<<", ">>", "&", "&^"}
@@ -53,7 +62,7 @@ BinPrec(op) == IF op \in Prec5 THEN 5 ELSE IF op \in Prec4 THEN 4 ELSE IF op \in
 AssignOps == {"=", ":=", "+=", "-=", "*=", "/=", "%=", "&=", "|=", "^=", "&^=", "<<=", ">>="}
 IncDec == {"++", "--"}
 TypeKinds == {"SliceType", "MapType", "ChanType", "FuncType"}
-StmtKinds == {"Assignment", "Var", "Send", "Defer", "Go", "Show"}
+StmtKinds == {"Assignment", "Var", "Send", "Defer", "Go", "Show", "Extends", "Import"}
 \* unary binds tighter than every binary operator (also Scriggo's 'not'); postfix/primary tighter still
 Prec(t) == IF t.k = "BinaryOperator" THEN BinPrec(t.v[1]) ELSE IF t.k = "UnaryOperator" THEN 6 ELSE 7
 
@@ -98,6 +107,11 @@ Pr(t) ==
     [] t.k = "Defer" -> <<"defer">> \o Pr(t.c[1])
     [] t.k = "Go" -> <<"go">> \o Pr(t.c[1])
     [] t.k = "Show" -> <<"show">> \o Commas(t.c[1].c, 1)
+    [] t.k = "Render" -> <<"render", t.v[1]>>             \* an operand (primary expression)
+    [] t.k = "BasicLiteral" -> <<t.v[2]>>
+    [] t.k = "Extends" -> <<"extends", t.v[1]>>
+    [] t.k = "Import" -> <<"import">> \o (IF t.c[1] = Nil THEN <<>> ELSE <<t.c[1].v[1]>>) \o <<t.v[1]>>
+                           \o (IF t.c[2].c = <<>> THEN <<>> ELSE <<"for">> \o Commas(t.c[2].c, 1))
 PrintTree(t) == Pr(t)
 
 (* ------------------------------------------------------------------------------------------------
@@ -188,6 +202,8 @@ PUnary(s, i) ==
   ELSE IF tk = "func" THEN LET ft == PFuncType(s, i) IN
                            IF Tok(s, ft.i) = "{" /\ Tok(s, ft.i + 1) = "}"
                            THEN PPostfix(s, FuncLit(ft.t), ft.i + 2) ELSE PPostfix(s, ft.t, ft.i)
+  ELSE IF tk = "render" THEN IF Tok(s, i + 1) \in LitHoles THEN PPostfix(s, Rend(Tok(s, i + 1)), i + 2) ELSE Bad
+  ELSE IF tk \in LitHoles THEN PPostfix(s, StrLit(tk), i + 1)
   ELSE IF tk \in Idents THEN PPostfix(s, Id(tk), i + 1)
   ELSE Bad
 
@@ -220,6 +236,14 @@ ParseStmt(s) ==
     [] tk = "defer" -> LET r == PExpr(s, 2, 1) IN Fin(s, Defer(r.t), r.i)
     [] tk = "go" -> LET r == PExpr(s, 2, 1) IN Fin(s, Go(r.t), r.i)
     [] tk = "show" -> LET r == PExprs(s, 2, <<>>) IN Fin(s, Show(r.ts), r.i)
+    [] tk = "extends" -> IF Tok(s, 2) \in LitHoles THEN Fin(s, Ext(Tok(s, 2)), 3) ELSE Err
+    [] tk = "import" ->
+         LET j == IF Tok(s, 2) \in ImportNames THEN 3 ELSE 2
+             id == IF j = 3 THEN Id(Tok(s, 2)) ELSE Nil IN
+         IF Tok(s, j) \notin LitHoles THEN Err
+         ELSE IF Tok(s, j + 1) = "for" /\ id = Nil
+         THEN LET ids == PIdents(s, j + 2, <<>>) IN IF ids.i = 0 THEN Err ELSE Fin(s, Imp(Nil, Tok(s, j), ids.ts), ids.i)
+         ELSE Fin(s, Imp(id, Tok(s, j), <<>>), j + 1)
     [] OTHER ->
          LET l == PExprs(s, 1, <<>>)  op == Tok(s, l.i) IN
          IF op \in IncDec THEN Fin(s, Assign(op, l.ts, <<>>), l.i + 1)
@@ -275,6 +299,13 @@ IPr(t) ==
     [] t.k = "Defer" -> <<"defer">> \o IPr(t.c[1])
     [] t.k = "Go" -> <<"go">> \o IPr(t.c[1])
     [] t.k = "Show" -> <<"show">> \o ISep(t.c[1].c, 1, <<",">>)
+    \* the literal itself is re-spelled by strconv.Quote (ExprLit.IQuote); Import.String writes no space before
+    \* 'for' ("p"for A), which is the same token sequence
+    [] t.k = "Render" -> <<"render", t.v[1]>>
+    [] t.k = "BasicLiteral" -> <<t.v[2]>>
+    [] t.k = "Extends" -> <<"extends", t.v[1]>>
+    [] t.k = "Import" -> <<"import">> \o (IF t.c[1] = Nil THEN <<>> ELSE <<t.c[1].v[1]>>) \o <<t.v[1]>>
+                           \o (IF t.c[2].c = <<>> THEN <<>> ELSE <<"for">> \o ISep(t.c[2].c, 1, <<",">>))
 ImplReparse(t) == Parse(IF IsStmt(t) THEN "stmt" ELSE "expr", IPr(t))
 
 (* ------------------------------------------------------------------------------------------------
@@ -292,6 +323,7 @@ AssignSym(x) ==
     [] x = "6" -> "%=" [] x = "7" -> "&=" [] x = "8" -> "|=" [] x = "9" -> "^=" [] x = "10" -> "&^=" [] x = "11" -> "<<="
     [] x = "12" -> ">>=" [] x = "13" -> "++" [] x = "14" -> "--" [] OTHER -> "?"
 DirSym(x) == CASE x = "0" -> "none" [] x = "1" -> "recv" [] x = "2" -> "send" [] OTHER -> "?"
+LitSym(x) == CASE x = "0" -> "string" [] x = "1" -> "rune" [] x = "2" -> "int" [] x = "3" -> "float" [] x = "4" -> "imaginary" [] OTHER -> "?"
 
 \* Abstract: the driver's generic dump of a real tree (kind = Go type name, v = exported scalar fields in
 \* declaration order, c = child fields in declaration order, slices as "list" nodes, nil as "nil") -> model tree
@@ -304,6 +336,8 @@ Abstract(T) ==
     [] T.k = "ChanType" -> Nd(T.k, <<DirSym(T.v[1])>>, AbsAll(T.c))
     [] T.k = "Assignment" -> Nd(T.k, <<AssignSym(T.v[1])>>, AbsAll(T.c))
     [] T.k = "Show" -> Nd(T.k, <<>>, AbsAll(T.c))                                      \* drop Context
+    [] T.k = "Extends" /\ Len(T.v) = 2 -> Nd(T.k, <<T.v[1]>>, <<>>)                     \* drop Format
+    [] T.k = "BasicLiteral" /\ Len(T.v) = 2 -> Nd(T.k, <<LitSym(T.v[1]), T.v[2]>>, <<>>)
     [] T.k = "CompositeLiteral" /\ Len(T.c) = 2 /\ \A i \in 1..Len(T.c[2].c) : T.c[2].c[i].k = "KeyValue" /\ T.c[2].c[i].c[1] = Nil ->
          Comp(Abstract(T.c[1]), [i \in 1..Len(T.c[2].c) |-> Abstract(T.c[2].c[i].c[2])])
     [] T.k = "FuncType" /\ Len(T.c) = 2 /\ T.c[1].c = <<>> /\ Len(T.c[2].c) <= 1 ->     \* no parameters, 0/1 unnamed result
